@@ -723,7 +723,34 @@ func (g *Gen) genRelation(faulty bool) {
 			r = pick(g.rng, all)
 		}
 	}
-	switch g.rng.intn(13) {
+	switch g.rng.intn(14) {
+	case 13:
+		// a rejected creation with a target on a (probably new) plain component set creates the
+		// table before the relation check fails; a relation added later without a target must
+		// still read as the zero target (no phantom target left behind in the plain table)
+		set := g.subset(g.plain, 1+g.rng.intn(3))
+		if len(set) > 0 {
+			m := pick(g.rng, []string{"new", "batch 2", "batchq 3"})
+			kind := "I " + idsStr(set)
+			if g.rng.chance(40) {
+				kind = "V " + g.pairsStr(set)
+			}
+			g.do(fmt.Sprintf("bld %s R %d %s T %s", kind, r, m, g.targetRef("")))
+			h0 := len(g.r.handles)
+			g.do("new " + idsStr(set))
+			if len(g.r.handles) > h0 {
+				ne := fmt.Sprintf("e%d", h0)
+				switch g.rng.intn(3) {
+				case 0:
+					g.do(fmt.Sprintf("add %s 1 %d", ne, r))
+				case 1:
+					g.do(fmt.Sprintf("assign %s %s", ne, g.pairsStr([]int{r})))
+				default:
+					g.do(fmt.Sprintf("b_add A %s 1 %d", idsStr(set), r))
+				}
+				g.do(fmt.Sprintf("relget %s %d", ne, r))
+			}
+		}
 	case 10:
 		// swap the relation component for another one (target must become zero), also with a dead old target
 		others := []int{}
